@@ -135,7 +135,10 @@ def cmd_check(prop, tier, jobs):
                 verdict = "vacuous"
             xf = [f for f in xc.get("fails", []) if f[0] == name]
             if verdict == "discharged" and xf:
-                crashes.append((h.name, f"cross-check mismatch: {name} discharged symbolically but fails natively on {xf[0][1]}"))
+                # proved under assumed callee contracts / library contracts, yet the contract fails natively on the
+                # real code: a concrete counterexample exists, so this is reported as a violation of the obligation
+                verdict = "refuted"
+                rec["replay"] = {"confirmed": True, "source": "native-cross-check (obligation discharged symbolically: an assumed callee/library contract does not hold on the real code, or the encoder is unsound)", "inputs": xf[0][1]}
                 xfail += 1
             if verdict == "discharged":
                 n_dis += 1
